@@ -187,7 +187,7 @@ example : ∃ sig, clVerifyWith (fun k => decide (k = 11)) toyKey sig [3, 5] = .
   exact ⟨sig, hv, this, by decide, by decide, by decide, by decide, by decide⟩
 
 /-- the interval / primality rejections are reachable. -/
-example : eInInterval toyParams 13 = false ∧ eInInterval toyParams 9 = true := by decide
+example : eInInterval toyParamsCL 13 = false ∧ eInInterval toyParamsCL 9 = true := by decide
 
 end Gabi.C05
 
